@@ -445,7 +445,13 @@ func isIntegerType(t types.Type) bool {
 func decide(fa *core.Facts, info *types.Info, kind string, n ast.Node, st *core.State, c *Ctx) core.BoundsResult {
 	switch kind {
 	case "IDX":
-		return fa.CheckIndex(n.(*ast.IndexExpr), st)
+		res := fa.CheckIndex(n.(*ast.IndexExpr), st)
+		if !res.OK && st != nil {
+			if r, ok := c.indexByRange(fa, fa.F, n.(*ast.IndexExpr), st); ok {
+				return r
+			}
+		}
+		return res
 	case "SLC":
 		return fa.CheckSlice(n.(*ast.SliceExpr), st)
 	case "NILOPT":
